@@ -147,6 +147,28 @@ theorem setState_getState_ne (f : FC) (i j : Inst) (rid cur : Int) (h : i ≠ j)
   · rw [e, drop_getState_ne _ _ _ h]
   · rw [e, put_getState_ne _ _ _ _ _ h]
 
+theorem force_cases (f : FC) (j : Inst) (st : IState) : f.force j st = f ∨ ∃ c, f.force j st = f.put j st c := by
+  unfold FC.force; split
+  · exact Or.inl rfl
+  · exact Or.inr ⟨_, rfl⟩
+
+theorem force_isMif (f : FC) (j : Inst) (st : IState) : (f.force j st).isMif = f.isMif := by
+  rcases force_cases f j st with h | ⟨c, h⟩ <;> rw [h] <;> rfl
+
+theorem force_name (f : FC) (j : Inst) (st : IState) : (f.force j st).name = f.name := by
+  rcases force_cases f j st with h | ⟨c, h⟩ <;> rw [h] <;> rfl
+
+theorem force_states (f : FC) (j : Inst) (st : IState) : ∀ p ∈ (f.force j st).states, p ∈ f.states ∨ p.1 = j := by
+  rcases force_cases f j st with h | ⟨c, h⟩
+  · rw [h]; intro p hp; exact Or.inl hp
+  · rw [h]; exact put_states f j st c
+
+theorem force_getState_ne (f : FC) (i j : Inst) (st : IState) (h : i ≠ j) :
+    (f.force j st).getState i = f.getState i := by
+  rcases force_cases f j st with e | ⟨c, e⟩
+  · rw [e]
+  · rw [e, put_getState_ne _ _ _ _ _ h]
+
 /-! ### lists of flow controls -/
 
 /-- no max-in-flight flow control of the list counts a state for `i`. -/
@@ -180,6 +202,13 @@ theorem clean_setState {i j : Inst} (h : i ≠ j) (rid cur : Int) : Clean i (fun
   intro f hf hm p hp
   have hm0 : f.isMif = true := by rw [← setState_isMif f j rid cur]; exact hm
   cases setState_states f j rid cur p hp with
+  | inl h1 => exact hf hm0 p h1
+  | inr h1 => rw [h1]; exact Ne.symm h
+
+theorem clean_force {i j : Inst} (h : i ≠ j) (st : IState) : Clean i (fun f => f.force j st) := by
+  intro f hf hm p hp
+  have hm0 : f.isMif = true := by rw [← force_isMif f j st]; exact hm
+  cases force_states f j st p hp with
   | inl h1 => exact hf hm0 p h1
   | inr h1 => rw [h1]; exact Ne.symm h
 
@@ -256,7 +285,7 @@ theorem handle_frame (s : State) (u : Ups) :
   · split
     · exact ⟨rfl, rfl, rfl, rfl⟩
     · split
-      · exact ⟨rfl, rfl, rfl, rfl⟩
+      · unfold deleteUpstream; split <;> exact ⟨rfl, rfl, rfl, rfl⟩
       · refine ⟨?_, ?_, ?_, ?_⟩
         · rw [(syncFlowControl_frame _ _ _ _).1]
         · rw [(syncFlowControl_frame _ _ _ _).2.2.1]
@@ -272,7 +301,9 @@ theorem handle_noState {i : Inst} (s : State) (u : Ups) (h : NoStateL i s.fcs) :
   · split
     · exact h
     · split
-      · exact noStateL_filter _ h
+      · unfold deleteUpstream; split
+        · exact h
+        · exact noStateL_filter _ h
       · exact syncFlowControl_noState _ _ _ _ h
 
 theorem dropStore_noState {i : Inst} (s : State) (sh : Nat) (h : NoStateL i s.fcs) :
@@ -370,6 +401,29 @@ theorem acquire_noState {i j : Inst} (hij : i ≠ j) (s : State) (u : Ups) (rid 
       rcases acquireOne_fcs j rid (shardOf u) u a rq with e | e
       · rw [e]; exact ha
       · rw [e]; exact noStateL_mapFC _ _ _ _ (clean_setState hij rid rq.2) ha) h
+
+theorem burst_frame (s : State) (u : Ups) (j : Inst) (n : Str) (st : Option IState) :
+    (burst shardOf s u j n st).hb = s.hb ∧ (burst shardOf s u j n st).conds = s.conds := by
+  unfold burst
+  simp only
+  repeat' split
+  all_goals exact ⟨rfl, rfl⟩
+
+theorem burst_fcs (s : State) (u : Ups) (j : Inst) (n : Str) (st : Option IState) :
+    (burst shardOf s u j n st).fcs = s.fcs ∨
+    ∃ st', (burst shardOf s u j n st).fcs = mapFC s.fcs (shardOf u) u n (fun f => f.force j st') := by
+  unfold burst
+  simp only
+  repeat' split
+  all_goals first
+    | exact Or.inl rfl
+    | exact Or.inr ⟨_, rfl⟩
+
+theorem burst_noState {i j : Inst} (hij : i ≠ j) (s : State) (u : Ups) (n : Str) (st : Option IState)
+    (h : NoStateL i s.fcs) : NoStateL i (burst shardOf s u j n st).fcs := by
+  rcases burst_fcs shardOf s u j n st with e | ⟨st', e⟩
+  · rw [e]; exact h
+  · rw [e]; exact noStateL_mapFC _ _ _ _ (clean_force hij st') h
 
 theorem cleanupTimeout_noState {i : Inst} (s : State) (now : Nat) (h : NoStateL i s.fcs) :
     NoStateL i (cleanupTimeout shardOf s now).fcs := noStateL_dropAll _ h
@@ -544,6 +598,14 @@ theorem acquire_kept {i j : Inst} (hij : i ≠ j) (s : State) (u : Ups) (rid : I
           (fun f => setState_getState_ne f i j rid rq.2 hij) r ha)
     ⟨r, hr, rfl, rfl, rfl, rfl⟩
 
+theorem burst_kept {i j : Inst} (hij : i ≠ j) (s : State) (u : Ups) (n : Str) (st : Option IState)
+    (r : Nat × Ups × FC) (hr : r ∈ s.fcs) : Kept i (burst shardOf s u j n st).fcs r := by
+  rcases burst_fcs shardOf s u j n st with e | ⟨st', e⟩
+  · rw [e]; exact ⟨r, hr, rfl, rfl, rfl, rfl⟩
+  · rw [e]
+    exact kept_mapFC _ _ _ _ _ (fun f => force_name f j st') (fun f => force_getState_ne f i j st' hij) r
+      ⟨r, hr, rfl, rfl, rfl, rfl⟩
+
 /-! ### upstream events and leadership changes -/
 
 theorem updateUpstreamStateCondition_key (upc : Option Cond) (u : Ups) (sc : List Schema)
@@ -576,13 +638,16 @@ theorem handle_keeps_conds (s : State) (u : Ups) (r : Nat × Cond) (hr : r ∈ s
           cases hf : s.listed.find? (·.1 == u) with
           | none => rw [hf] at this; cases this
           | some x => rw [hf] at hnone; cases hnone
-        simp only [deleteUpstream, List.mem_filter]
-        refine ⟨hr, ?_⟩
-        cases h1 : (r.1 == shardOf u && r.2.upstream == u)
-        · rfl
-        · exfalso
-          simp only [Bool.and_eq_true, beq_iff_eq] at h1
-          exact hne ⟨h1.1, h1.2, Or.inl hl⟩
+        unfold deleteUpstream
+        split
+        · exact hr
+        · simp only [List.mem_filter]
+          refine ⟨hr, ?_⟩
+          cases h1 : (r.1 == shardOf u && r.2.upstream == u)
+          · rfl
+          · exfalso
+            simp only [Bool.and_eq_true, beq_iff_eq] at h1
+            exact hne ⟨h1.1, h1.2, Or.inl hl⟩
       · rw [(syncFlowControl_frame _ _ _ _).2.1]
         simp only
         have hk := updateUpstreamStateCondition_key (getCond s (shardOf u) u (stateName u)) u ‹List Schema›
@@ -627,6 +692,11 @@ theorem step_noState {i : Inst} (s : State) (op : Op) (h : op.isBy i = false) (h
   | list u sc => exact hs
   | unlist u => exact hs
   | handle u => exact handle_noState shardOf s u hs
+  | burst u j n st =>
+    have hij : i ≠ j := by intro e; subst e; simp [Op.isBy] at h
+    exact burst_noState shardOf hij s u n st hs
+  | faults names => exact hs
+  | apiDelete name => exact hs
 
 /-- heartbeat entries of a silent instance are never created. -/
 theorem step_hb_from {i : Inst} (s : State) (op : Op) (h : op.isBy i = false) :
@@ -648,6 +718,9 @@ theorem step_hb_from {i : Inst} (s : State) (op : Op) (h : op.isBy i = false) :
   | list u sc => exact hp
   | unlist u => exact hp
   | handle u => rw [show (step shardOf s (.handle u)).1.hb = s.hb from (handle_frame shardOf s u).1] at hp; exact hp
+  | burst u j n st => rw [show (step shardOf s (.burst u j n st)).1.hb = s.hb from (burst_frame shardOf s u j n st).1] at hp; exact hp
+  | faults names => exact hp
+  | apiDelete name => exact hp
 
 /-- only the time-out pass removes heartbeat entries of an instance other than the one acting. -/
 theorem step_hb_keep {i : Inst} (s : State) (op : Op) (h : op.isBy i = false) (hop : ∀ now, op ≠ .cleanupTimeout now) :
@@ -667,6 +740,9 @@ theorem step_hb_keep {i : Inst} (s : State) (op : Op) (h : op.isBy i = false) (h
   | list u sc => exact hp
   | unlist u => exact hp
   | handle u => rw [show (step shardOf s (.handle u)).1.hb = s.hb from (handle_frame shardOf s u).1]; exact hp
+  | burst u j n st => rw [show (step shardOf s (.burst u j n st)).1.hb = s.hb from (burst_frame shardOf s u j n st).1]; exact hp
+  | faults names => exact hp
+  | apiDelete name => exact hp
 
 /-- the time-out pass drops every in-flight state of an instance that is dead at `now`. -/
 theorem cleanupTimeout_drops_dead (s : State) (now : Nat) (i : Inst) (hdead : DeadAt now s i) :
@@ -685,6 +761,70 @@ theorem run_append (s : State) (a b : List Op) : run shardOf s (a ++ b) = run sh
 
 theorem run_cons (s : State) (op : Op) (ops : List Op) :
     run shardOf s (op :: ops) = run shardOf (step shardOf s op).1 ops := rfl
+
+/-! ### the fault environment only changes by the `faults` op -/
+
+theorem syncFlowControl_failing (s : State) (sh : Nat) (u : Ups) (sc : List Schema) :
+    (syncFlowControl s sh u sc).failing = s.failing := by
+  unfold syncFlowControl; simp only []; split <;> rfl
+
+theorem handle_failing (s : State) (u : Ups) : (handle shardOf s u).failing = s.failing := by
+  unfold handle
+  simp only
+  split
+  · rfl
+  · split
+    · rfl
+    · split
+      · unfold deleteUpstream; split <;> rfl
+      · rw [syncFlowControl_failing]
+
+theorem report_failing (s : State) (u : Ups) (j : Inst) (ri : List (Str × Kind)) (q : List Item) :
+    (report shardOf s u j ri q).1.failing = s.failing := by
+  unfold report
+  repeat' (first | split | (simp only []; split))
+  all_goals rfl
+
+theorem acquireOne_failing (j : Inst) (rid : Int) (sh : Nat) (u : Ups) (s : State) (rq : Str × Int) :
+    (acquireOne j rid sh u s rq).1.failing = s.failing := by
+  unfold acquireOne
+  repeat' (first | split | (simp only []; split))
+  all_goals rfl
+
+theorem burst_failing (s : State) (u : Ups) (j : Inst) (n : Str) (st : Option IState) :
+    (burst shardOf s u j n st).failing = s.failing := by
+  unfold burst
+  simp only
+  repeat' split
+  all_goals rfl
+
+theorem step_failing (s : State) (op : Op) (h : ∀ l, op ≠ .faults l) : (step shardOf s op).1.failing = s.failing := by
+  cases op with
+  | heartbeat j t => rfl
+  | report u j ri q => exact report_failing shardOf s u j ri q
+  | acquire u j rid reqs =>
+    exact acquire_inv shardOf (fun st => st.failing = s.failing) s u j rid reqs
+      (fun a rq ha => by rw [acquireOne_failing]; exact ha) rfl
+  | cleanupTimeout now => rfl
+  | cleanupUnknown => rfl
+  | setLeader sh b => rfl
+  | leaderCheck =>
+    exact leaderCheck_inv shardOf (fun st => st.failing = s.failing) (fun _ _ ha => ha)
+      (fun a u ha => by rw [handle_failing]; exact ha) (fun _ _ ha => ha) s rfl
+  | list u sc => rfl
+  | unlist u => rfl
+  | handle u => exact handle_failing shardOf s u
+  | burst u j n st => exact burst_failing shardOf s u j n st
+  | faults names => exact absurd rfl (h names)
+  | apiDelete name => rfl
+
+/-- a history without `faults` ops (every history of a server with the local store) never has a failing delete. -/
+theorem run_failing (ops : List Op) (h : ∀ op ∈ ops, ∀ l, op ≠ .faults l) (s : State) :
+    (run shardOf s ops).failing = s.failing := by
+  induction ops generalizing s with
+  | nil => rfl
+  | cons op t ih =>
+    rw [run_cons, ih (fun o ho => h o (by simp [ho])), step_failing shardOf s op (h op (by simp))]
 
 /-- what a silent, already forgotten instance stays: forgotten. -/
 theorem gone_run {i : Inst} (ops : List Op) (hq : Quiet i ops) (s : State) (h : NoHb i s ∧ NoState i s) :
@@ -885,6 +1025,7 @@ structure Closed (P : FC → Prop) : Prop where
   resize : ∀ f sc, P f → P (resizeFC f sc)
   drop : ∀ f d, P f → P (f.drop d)
   set : ∀ f j rid cur, P f → P (setState f j rid cur).1
+  force : ∀ f j st, P f → P (f.force j st)
 
 section allfc
 variable (shardOf : Ups → Nat) {P : FC → Prop}
@@ -943,7 +1084,9 @@ theorem handle_allFC (hP : Closed P) (s : State) (u : Ups) (h : AllFC P s.fcs) :
   · split
     · exact h
     · split
-      · exact allFC_filter _ h
+      · unfold deleteUpstream; split
+        · exact h
+        · exact allFC_filter _ h
       · exact syncFlowControl_allFC hP _ _ _ _ h
 
 theorem step_allFC (hP : Closed P) (s : State) (op : Op) (h : AllFC P s.fcs) :
@@ -968,6 +1111,13 @@ theorem step_allFC (hP : Closed P) (s : State) (op : Op) (h : AllFC P s.fcs) :
   | list u sc => exact h
   | unlist u => exact h
   | handle u => exact handle_allFC shardOf hP s u h
+  | burst u j n st =>
+    rcases burst_fcs shardOf s u j n st with e | ⟨st', e⟩
+    · show AllFC P (burst shardOf s u j n st).fcs; rw [e]; exact h
+    · show AllFC P (burst shardOf s u j n st).fcs; rw [e]
+      exact allFC_mapFC _ _ _ _ (fun f hf => hP.force f j st' hf) h
+  | faults names => exact h
+  | apiDelete name => exact h
 
 theorem run_allFC (hP : Closed P) (ops : List Op) (s : State) (h : AllFC P s.fcs) :
     AllFC P (run shardOf s ops).fcs := by
@@ -995,5 +1145,20 @@ theorem closed_good : Closed Good where
     rw [resizeFC_states, resizeFC_count]; exact h hm
   drop := fun f d h => good_drop f d h
   set := fun f j rid cur h => good_setState f j rid cur h
+  force := by
+    intro f j st h
+    unfold FC.force
+    by_cases hm : f.isMif = true
+    · simp only [hm, Bool.not_true, Bool.false_eq_true, if_false]
+      obtain ⟨_, hc⟩ := h hm
+      cases hst : f.getState j with
+      | none =>
+        apply good_put_absent f j _ _ hm h hst
+        simp only [Option.map_none, Option.getD_none]; rw [hc]; unfold toI32; omega
+      | some st0 =>
+        apply good_put_present f j st0 _ _ hm h hst
+        simp only [Option.map_some, Option.getD_some]; rw [hc]; unfold toI32; omega
+    · have hf : f.isMif = false := by simpa using hm
+      simp only [hf, Bool.not_false, if_true]; exact h
 
 end KG.Lemmas.Reclaim
